@@ -127,28 +127,7 @@ def run(R):
                     "self.%s is a field or method of %s" % (attr, cls.name),
                     "%s reads self.%s, which no method of %s (or a base, or the .pxd) ever defines: the diagnostic raises AttributeError" % (m.name, attr, cls.name))
     R.require_min("C18.ATTRDEF", 60)
-    # ---- TOTAL: no raise / assert, no computation started
-    for m in sorted(allm.values(), key=lambda f: f.qualname):
-        if m.name in ("traceback", "_traceback_line") or m.cls is None:
-            continue
-        cfg = cfg_of(m)
-        p = cfg.find_path([cfg.entry], [cfg.raise_exit], N)
-        R.check(p is None, "C18.TOTAL", m.qualname + ":noraise", R.site(m),
-                "%s has no reachable raise/assert" % m.name, "%s.%s can raise explicitly" % (m.cls.name, m.name), cfg.fmt_path(p) if p else None)
-        for c in q.calls(m.node):
-            recv, name = q.attr_call(c)
-            if recv is None or name not in COMPUTING or name == "__call__":
-                continue
-            d = q.dotted(recv)
-            if d is None:
-                continue
-            # only receivers that are futures: self (if a future) or typed fields
-            rc = R.res.expr_class(m, recv)
-            if not rc or not any(x.is_subclass_of(ro.FutureBase) for x in rc):
-                continue
-            R.check(guarded_by_computed(m, c), "C18.TOTAL", "%s:%s" % (m.qualname, q.src(c)), R.site(m, c),
-                    "%s is evaluated only for a computed future (printing never starts a computation)" % q.src(c),
-                    "%s can be evaluated on an uncomputed future: printing it (a debug dump, an error message) runs the computation - a pending batch is flushed by its own __str__" % q.src(c))
+    diag_purity(R, ro, allm, "C18.TOTAL")
     R.require_min("C18.TOTAL", 20)
     # self-reference guard in FutureBase.__repr__
     fr = ro.FutureBase.methods.get("__repr__")
@@ -335,3 +314,36 @@ def run(R):
         rs = [n.value for n in q.scope_nodes(f.node) if isinstance(n, ast.Return)]
         R.check(len(rs) == 1 and isinstance(rs[0], ast.Call) and q.call_name(rs[0]) == ext, "C18.SAFE-STR", f.qualname, R.site(f),
                 "debug.%s delegates to %s (never raises Exception)" % (nm, ext), "debug.%s no longer delegates to %s" % (nm, ext))
+
+
+def diag_closure(R):
+    roots = diag_methods(R)
+    allm = {}
+    for m in roots:
+        self_callees(R, m, allm)
+    return roots, allm
+
+
+def diag_purity(R, ro, allm, rule):
+    # ---- TOTAL: no raise / assert, no computation started
+    for m in sorted(allm.values(), key=lambda f: f.qualname):
+        if m.name in ("traceback", "_traceback_line") or m.cls is None:
+            continue
+        cfg = cfg_of(m)
+        p = cfg.find_path([cfg.entry], [cfg.raise_exit], N)
+        R.check(p is None, rule, m.qualname + ":noraise", R.site(m),
+                "%s has no reachable raise/assert" % m.name, "%s.%s can raise explicitly" % (m.cls.name, m.name), cfg.fmt_path(p) if p else None)
+        for c in q.calls(m.node):
+            recv, name = q.attr_call(c)
+            if recv is None or name not in COMPUTING or name == "__call__":
+                continue
+            d = q.dotted(recv)
+            if d is None:
+                continue
+            # only receivers that are futures: self (if a future) or typed fields
+            rc = R.res.expr_class(m, recv)
+            if not rc or not any(x.is_subclass_of(ro.FutureBase) for x in rc):
+                continue
+            R.check(guarded_by_computed(m, c), rule, "%s:%s" % (m.qualname, q.src(c)), R.site(m, c),
+                    "%s is evaluated only for a computed future (printing never starts a computation)" % q.src(c),
+                    "%s can be evaluated on an uncomputed future: printing it (a debug dump, an error message) runs the computation - a pending batch is flushed by its own __str__" % q.src(c))
